@@ -845,7 +845,9 @@ class World(object):
             n, _ = sched.count_lines(thunk)
             op["n_lines"] = n
         n = op["n_lines"]
-        stride = max(1, op.get("stride", 1))
+        # the sweep re-runs the call once per point: bound the quadratic cost
+        cap = op.get("max_points", 300)
+        stride = max(1, op.get("stride", 1), (n + cap - 1) // cap)
         kind = op.get("exc", "SimAbort")
         fired_n = 0
         self._cur_inputs = set(spec["in"])
